@@ -18,7 +18,7 @@ use crate::{
     lab::{
         self, LabConfig, LabWorker,
         h1::{self, Acceptor, content, first_mismatch},
-        script::{self, ReadScript, ScriptedReader, WriteScript},
+        script::{self, RStep, ReadScript, ScriptedReader, WriteScript},
     },
 };
 
@@ -57,6 +57,12 @@ pub struct Case {
     pub strict: bool,
     #[serde(default)]
     pub backend_closes_first: bool,
+    /// bulk back-pressure: 0 none; 1 the client stops reading in the middle of a multi-megabyte
+    /// download; 2 the backend stops reading in the middle of a multi-megabyte upload (default
+    /// socket buffers: the proxy's writes must hit WouldBlock with its own buffer full and resume
+    /// on the next writable edge)
+    #[serde(default)]
+    pub bulk: u8,
 }
 
 fn size(max: usize) -> impl Strategy<Value = usize> {
@@ -70,6 +76,29 @@ fn size(max: usize) -> impl Strategy<Value = usize> {
 }
 
 pub fn strategy(max_size: usize) -> impl Strategy<Value = Case> {
+    let bulk = (base_strategy(max_size), 1u8..=2, 8usize..20, 0usize..65536, 1usize..40, 900u16..1800, 0usize..70_000).prop_map(|(mut c, dir, mib, odd, reads_before, stall, other)| {
+        let len = mib * 1024 * 1024 + odd;
+        let read = ReadScript { steps: std::iter::repeat(RStep::Read(65536)).take(reads_before).chain([RStep::StallMs(stall)]).collect(), rcvbuf: None };
+        c.bulk = dir;
+        c.client_write = WriteScript::default();
+        c.backend_write = WriteScript::default();
+        c.client_read = ReadScript::default();
+        c.backend_read = ReadScript::default();
+        if dir == 1 {
+            c.b2c_len = len;
+            c.c2b_len = other;
+            c.client_read = read;
+        } else {
+            c.c2b_len = len;
+            c.b2c_len = other;
+            c.backend_read = read;
+        }
+        c
+    });
+    prop_oneof![12 => base_strategy(max_size), 1 => bulk]
+}
+
+fn base_strategy(max_size: usize) -> impl Strategy<Value = Case> {
     (
         0u8..4,
         size(max_size),
@@ -92,6 +121,7 @@ pub fn strategy(max_size: usize) -> impl Strategy<Value = Case> {
             client_fin_delay_ms: cfd,
             backend_fin_delay_ms: bfd,
             strict: false,
+            bulk: 0,
             backend_closes_first: seed % 2 == 1,
             mode,
             c2b_len,
@@ -566,6 +596,8 @@ fn scenario_inner(lab: &mut RelayLab, case: &Case) -> CheckResult {
     rep.nontrivial = (case.c2b_len.max(case.b2c_len) >= 65536 && stall) || (case.c2b_len > 0 && case.b2c_len > 0);
     rep.class(format!("mode{}", case.mode));
     rep.class_if(stall, "read_stall");
+    rep.class_if(case.bulk == 1, "bulk_download_client_pauses_reading");
+    rep.class_if(case.bulk == 2, "bulk_upload_backend_pauses_reading");
     rep.class_if(case.c2b_len.max(case.b2c_len) >= 65536, "64KiB+_one_way");
     rep.class_if(case.c2b_len > 0 && case.b2c_len > 0, "bidirectional");
     rep.class_if(case.mode >= 2 && case.hdr_tlv > 0, "incoming_header_with_tlv");
@@ -578,7 +610,7 @@ fn scenario_inner(lab: &mut RelayLab, case: &Case) -> CheckResult {
 pub const SUB: &str = "relay";
 
 pub fn rule() -> &'static str {
-    "one TCP session through a live worker's TCP listener in plain / send / expect / relay PROXY mode: payloads 0..256 KiB (thorough: 4 MiB) each way of keyed content, four generated I/O scripts (dribbles, pauses, read stalls with small socket buffers), both sides half-close after their last byte; expect/relay: a hand-built incoming v2 header (IPv4/IPv6/LOCAL, TLV tail, written with or before the payload) or a malformed one. Oracle: both byte streams exact and in order, each side sees end-of-stream only after all bytes, the backend sees exactly one well-formed v2 header in send/relay mode (true client + listener addresses, or the incoming header's addresses) and none in expect mode; malformed headers: nothing reaches the backend. A failure is re-run on a fresh worker and only reported when it reproduces. Non-trivial: both directions carry data, or >= 64 KiB one way with a read stall."
+    "one TCP session through a live worker's TCP listener in plain / send / expect / relay PROXY mode: payloads 0..256 KiB (thorough: 4 MiB) each way of keyed content, four generated I/O scripts (dribbles, pauses, read stalls with small socket buffers), one case in thirteen a bulk transfer of 8-20 MiB one way whose receiver stops reading for 0.9-1.8 s (default socket buffers: the proxy's writes hit WouldBlock with its own buffer full), both sides half-close after their last byte; expect/relay: a hand-built incoming v2 header (IPv4/IPv6/LOCAL, TLV tail, written with or before the payload) or a malformed one. Oracle: both byte streams exact and in order, each side sees end-of-stream only after all bytes, the backend sees exactly one well-formed v2 header in send/relay mode (true client + listener addresses, or the incoming header's addresses) and none in expect mode; malformed headers: nothing reaches the backend. A failure is re-run on a fresh worker and only reported when it reproduces. Non-trivial: both directions carry data, or >= 64 KiB one way with a read stall."
 }
 
 /// child-process entry: run this shard's scenarios
